@@ -431,8 +431,8 @@ func c16Exec(mpt *util.MerklePatriciaTrie, db2 util.NodeDB, f []string, post *fu
 			mpt.SetVersion(mpt.GetVersion())
 			return "ok"
 		case "dbversion":
-			// LevelNodeDB.GetDBVersion on the trie's store (never generated: probes MergeMPTChanges' unlocked
-			// `db.version = ...`, see notes/C16.md)
+			// LevelNodeDB.GetDBVersion on the trie's store, concurrently with child merges: MergeMPTChanges used to
+			// write `db.version` without the store's mutex (fixed defect 0a1942f)
 			if l, ok := mpt.GetNodeDB().(*util.LevelNodeDB); ok {
 				return fmt.Sprintf("ok %d", l.GetDBVersion()&0)
 			}
@@ -1296,6 +1296,8 @@ func genC16(r *rand.Rand, tier string, idx int) []string {
 				}
 			case "delreader":
 				switch {
+				case x < 12:
+					line = "dbversion" // LevelNodeDB.GetDBVersion on the shared store (fixed defect 0a1942f)
 				case x < 65:
 					line = "deletes"
 				case x < 80:
